@@ -260,7 +260,7 @@ Lemma real_closed0 : sig_closed0 RS.
 Proof.
   destruct CK. constructor; simpl; try (apply lift_closed; assumption).
   - apply info_real_closed.
-  - exact kc_meta_norad.
+  - intros c m Hd. destruct c as [c|d|r]; try discriminate. exact (kc_meta_norad c m Hd).
   - (* identifiers of the guidelines the info reader returns *)
     intros c si Hd g Hg id Hid. destruct c as [c|d|r]; try discriminate.
     destruct (FI.fi_load r) as [i| |] eqn:El; try discriminate. inversion Hd; subst si. clear Hd.
@@ -409,4 +409,136 @@ Proof.
   - intros c l H. destruct c; try discriminate. simpl in H. destruct (forallb _ l0) eqn:E; [|discriminate]. inversion H; subst.
     apply Forall_forall. intros e He. rewrite forallb_forall in E. exact (E e He).
   - intros r i _ gs _. apply Forall_forall. intros; exact I.
+Qed.
+
+(** ** metainfo / layercontents / contents from the tree-level plist codec: [codecs_ok] and
+    [codecs_closed] of [with_plist_files] follow from the laws of the four remaining files *)
+Require Import Norad.Model.FontRealPlist Norad.Proofs.FontRealPlistP.
+
+Section WithPlistFilesP.
+Variable pf : str -> option fl.
+Variables ff : fl -> str.
+Variable fi : Z -> str.
+Variable K4 : codecs4.
+Hypothesis H_ff : forall x, fl_finite x = true -> pf (ff x) = Some x.
+Hypothesis H_fi : forall z, int_ok z = true -> plist_int (fi z) = Some z.
+
+Lemma lift_l_ok {X} (p : part (K4_content K4) (K4_opts K4) X) : part_ok p -> part_ok (lift_l K4 p).
+Proof.
+  intros [R Sy T RT OI]. constructor; simpl; auto.
+  - intros o x Hw. destruct (RT o x Hw) as [c [x' [H1 [H2 H3]]]]. exists (inl c), x'. rewrite H1. simpl. auto.
+  - intros o1 o2 x c1 c2 Hw H1 H2.
+    destruct (enc p o1 x) as [a|] eqn:E1; simpl in H1; [|discriminate].
+    destruct (enc p o2 x) as [b|] eqn:E2; simpl in H2; [|discriminate].
+    inversion H1; inversion H2; subst. simpl. eapply OI; eauto.
+Qed.
+Lemma lift_r_ok {X} (p : part node (K4_opts K4) X) : part_ok p -> part_ok (lift_r K4 p).
+Proof.
+  intros [R Sy T RT OI]. constructor; simpl; auto.
+  - intros o x Hw. destruct (RT o x Hw) as [c [x' [H1 [H2 H3]]]]. exists (inr c), x'. rewrite H1. simpl. auto.
+  - intros o1 o2 x c1 c2 Hw H1 H2.
+    destruct (enc p o1 x) as [a|] eqn:E1; simpl in H1; [|discriminate].
+    destruct (enc p o2 x) as [b|] eqn:E2; simpl in H2; [|discriminate].
+    inversion H1; inversion H2; subst. simpl. eapply OI; eauto.
+Qed.
+
+Theorem with_plist_files_ok : codecs4_ok K4 -> codecs_ok (with_plist_files pf ff fi K4).
+Proof.
+  intros H. destruct H. constructor; simpl;
+    try (apply lift_l_ok; assumption); try assumption; try (intros; congruence).
+  - apply lift_r_ok. apply meta_part_ok; assumption.
+  - apply lift_r_ok. apply lc_part_ok; assumption.
+  - apply lift_r_ok. apply ct_part_ok; assumption.
+  - intros l. unfold wf_lc. tauto.
+Qed.
+
+Theorem with_plist_files_closed : codecs4_closed K4 -> codecs_closed (with_plist_files pf ff fi K4).
+Proof.
+  intros H. destruct H as [Clib Cgr Cke Cli Cids]. constructor; simpl; try assumption.
+  - intros c x Hd. destruct c; [exact (Clib _ _ Hd)|discriminate].
+  - intros c x Hd. destruct c; [exact (Cgr _ _ Hd)|discriminate].
+  - intros c x Hd. destruct c; [exact (Cke _ _ Hd)|discriminate].
+  - intros c x Hd. destruct c as [c|n]; [discriminate|]. simpl in Hd.
+    destruct (plist_value pf n) as [v|]; [|discriminate]. exact (pv_lc_names v x Hd).
+  - intros c x Hd. destruct c as [c|n]; [discriminate|]. simpl in Hd.
+    destruct (plist_value pf n) as [v|]; [|discriminate]. exact (pv_ct_wf v x Hd).
+  - intros c x Hd. destruct c; [exact (Cli _ _ Hd)|discriminate].
+  - (* norad's metainfo with the minor version of a decoded one *)
+    intros c m Hd. destruct c as [c|n]; [discriminate|]. simpl in Hd.
+    destruct (plist_value pf n) as [v|]; [|discriminate]. simpl in Hd.
+    destruct v; try discriminate. unfold pv_meta in Hd.
+    destruct (match alookup k_creator d with None => Some None | Some (PStr c) => Some (Some c) | Some _ => None end); [|discriminate].
+    destruct (alookup k_fv d) as [[| z | | | | | |]|]; try discriminate.
+    destruct ((z =? 1) || (z =? 2) || (z =? 3))%Z; [|discriminate].
+    destruct (alookup k_fvm d) as [[| z2 | | | | | |]|]; try discriminate.
+    + destruct ((0 <=? z2) && (z2 <? 2 ^ 32))%Z eqn:E; [|discriminate]. inversion Hd; subst m. simpl.
+      split; [auto|]. apply andb_true_iff in E. destruct E as [E1 E2]. apply Z.leb_le in E1. apply Z.ltb_lt in E2.
+      change (2 ^ 32)%Z with 4294967296%Z in E2. change (2 ^ 32) with 4294967296. cbn [m_minor]. lia.
+    + inversion Hd; subst m. simpl. split; [auto|]. reflexivity.
+  - intros c l Hd. destruct c as [c|n]; [discriminate|]. simpl in Hd.
+    destruct (plist_value pf n) as [v|]; [|discriminate]. destruct (pv_ct_wf v l Hd) as [_ Hn]. exact Hn.
+Qed.
+
+End WithPlistFilesP.
+
+(** the reduced hypotheses are satisfiable as well *)
+Definition id_codecs4 : codecs4 := {|
+  K4_content := kcontent; K4_opts := N; K4_color := N;
+  K4_lib := K_lib id_codecs; K4_groups := K_groups id_codecs; K4_kerning := K_kerning id_codecs;
+  K4_li := K_li id_codecs;
+  K4_ceq := eq; K4_wf_color := fun _ => True;
+  K4_wf_key := fun _ => True; K4_wf_pv := fun _ => True; K4_lower := fun x => x |}.
+Theorem id_codecs4_ok : codecs4_ok id_codecs4.
+Proof.
+  destruct id_codecs_ok. constructor; assumption.
+Qed.
+Theorem id_codecs4_closed : codecs4_closed id_codecs4.
+Proof. destruct id_codecs_closed. constructor; assumption. Qed.
+
+Section RealPlistFiles.
+Variable pf : str -> option fl.
+Variables ff ff3 : fl -> str.
+Variable fi : Z -> str.
+Variable fh : N -> str.
+Variable K4 : codecs4.
+Hypothesis L1 : L1_glif pf ff ff3 fi fh.
+Let K := with_plist_files pf ff fi K4.
+
+Lemma plist_files_lawful : codecs4_ok K4 -> codecs_ok K.
+Proof. destruct L1 as [Hff [_ [_ Hfi]]]. apply with_plist_files_ok; assumption. Qed.
+Lemma plist_files_closed : codecs4_closed K4 -> codecs_closed K.
+Proof. intros H. destruct L1 as [_ [_ [_ Hfi]]]. apply with_plist_files_closed; assumption. Qed.
+
+Theorem roundtrip_real_plist : codecs4_ok K4 ->
+  forall o (f : font (real_sig pf ff ff3 fi fh K)),
+  font_valid (real_sig pf ff ff3 fi fh K) f ->
+  exists t, save (real_sig pf ff ff3 fi fh K) o f = Ok t /\
+            spec_write (real_sig pf ff ff3 fi fh K) norad_choices o f = Some t /\
+            exists f', load (real_sig pf ff ff3 fi fh K) t = Ok f' /\ font_equiv (real_sig pf ff ff3 fi fh K) f f'.
+Proof. intros H4. apply roundtrip_real; [exact L1|apply plist_files_lawful; exact H4]. Qed.
+
+Theorem fixed_point_real_plist : codecs4_ok K4 -> codecs4_closed K4 ->
+  forall o (t : tree (real_sig pf ff ff3 fi fh K)) (f : font (real_sig pf ff ff3 fi fh K)) mc m,
+  load (real_sig pf ff ff3 fi fh K) t = Ok f ->
+  t_meta _ t = Some mc -> dec (P_meta (real_sig pf ff ff3 fi fh K)) mc = Some m -> m_version m = 3 ->
+  Forall (fun l => Forall (fun e : str * str * glyph => glyph_rt_domain pf ff3 (snd e)) (l_glyphs l)) (f_layers _ f) ->
+  exists t', save (real_sig pf ff ff3 fi fh K) o f = Ok t' /\
+             exists f', load (real_sig pf ff ff3 fi fh K) t' = Ok f' /\ font_equiv (real_sig pf ff ff3 fi fh K) f f'.
+Proof.
+  intros H4 C4. apply fixed_point_real;
+    [exact L1|apply plist_files_lawful; exact H4|apply plist_files_closed; exact C4].
+Qed.
+End RealPlistFiles.
+
+(** the domains of the three real file codecs are inhabited *)
+Example plist_files_domains_inhabited :
+  wf_meta {| m_creator := Some NORAD_CREATOR; m_version := 3; m_minor := 0 |} /\
+  wf_lc [([102;111;114;101], [103;108;121;112;104;115])] /\
+  wf_ct [([65], [65;95;46;103;108;105;102]); ([97], [97;46;103;108;105;102])].
+Proof.
+  split; [split; [simpl; auto|reflexivity]|]. split.
+  - constructor; [vm_compute; reflexivity|constructor].
+  - split.
+    + simpl. split; [|split; [intros k []|exact I]]. intros k [<-|[]]. vm_compute. reflexivity.
+    + constructor; [vm_compute; reflexivity|]. constructor; [vm_compute; reflexivity|constructor].
 Qed.
